@@ -565,6 +565,17 @@ impl BytecodeBuilder {
         }
         self.registers.reserve_range(count as u8)
     }
+
+    /// Free a range of consecutive registers obtained from `reserve_registers`
+    /// once the instruction that consumes them has been emitted
+    pub fn free_registers(&mut self, start: Register, count: usize) {
+        // Highest first, so the allocator can shrink its contiguous window
+        let mut i = count;
+        while i > 0 {
+            i -= 1;
+            self.registers.free(start + i as u8);
+        }
+    }
 }
 
 impl Default for BytecodeBuilder {
